@@ -109,6 +109,7 @@ struct Global {
     std::vector<uint64_t> pct_points;
     uint64_t pct_low = 0;
     double p_spurious = 0, p_stall = 0, p_clockjump = 0;
+    double p_clockfail_boot = 0; // CLOCK_BOOTTIME/MONOTONIC reads fail (EINVAL): only harnesses whose code is documented to tolerate it
     uint32_t access_mean = 0; // flavour B
     uint64_t soft_budget = 0, hard_budget = 0;
     bool tail = false;
@@ -625,6 +626,7 @@ void begin(const Plan &plan) {
     G.p_spurious = permille(plan, "p_spurious", 0);
     G.p_stall = permille(plan, "p_stall", 0);
     G.p_clockjump = permille(plan, "p_clockjump", 0);
+    G.p_clockfail_boot = permille(plan, "p_clockfail_boot", 0);
     G.soft_budget = (uint64_t)plan.get("soft_budget", 200000);
     G.hard_budget = (uint64_t)plan.get("hard_budget", 2000000);
     G.cpu_cost = (uint64_t)plan.get("cpu_cost", 100);
@@ -1033,6 +1035,13 @@ int __wrap_clock_gettime(clockid_t id, struct timespec *ts) {
     if (!sim::active()) return __real_clock_gettime(id, ts);
     sim::point(PK_CLOCK, nullptr, (int64_t)id);
     bool rt = (id == CLOCK_REALTIME || id == CLOCK_REALTIME_COARSE);
+    if (!rt && G.p_clockfail_boot > 0 && !G.tail && sim::coin(CK_FAULT, G.p_clockfail_boot)) {
+        // a kernel / sandbox without this clock id: the call fails, the caller gets no time
+        sim::fault_fired("boot_clock_read_fails");
+        log_event(PK_FAULT, nullptr, 500);
+        errno = EINVAL;
+        return -1;
+    }
     uint64_t v = rt ? sim::now_real() : sim::now_boot();
     if (rt) log_event(PK_CLOCK_READ, nullptr, (int64_t)v); // the value actually returned (after any preemption at the point above)
     ts->tv_sec = (time_t)(v / 1000000000ull);
